@@ -40,6 +40,9 @@ CHECKS = {
  "C11": dict(design="3/C11", technique="exhaustive enumeration of scope-definition subsets x roles x name kinds x env depths through generated nested callers; first-match reference model of the lookup order",
    text="Complete enumeration on the real design_matrices: for names used as call argument (recording probe), as callee, as dotted callee (ns.fn, ns.sub.fn) and as back-quoted argument, for a plain name and the name of a built-in, and for env depths 0..3 reached through four generated nested callers each with its own locals and globals: every subset of {data, locals_k, globals_k, extra_namespace} defines the name with a distinct marker while every other frame defines decoys; the observed winner must be the reference model's first match, the empty subset must raise, a winner bound to None still wins, and an Environment instance is used as is (465 configurations).",
    note="Trusts the reference order stated in the property; deeper env values and names defined through closures are not covered."),
+ "C13": dict(design="3/C13", technique="exhaustive enumeration of level counts x reference/omit choices, of level permutations passed as levels=, and of coding assignments per formula; algebraic oracle and span comparison",
+   text="Complete enumeration on the real code: Treatment(ref)/Sum(omit) for every level count 1..12, every reference/omitted level and the default over three level alphabets (strings, integers incl. -1/0, falsy strings) - shapes, rank with the constant, full span, indicator and zero-reference rows, zero column sums with a -1 row, labels; C/T/S(..., levels=<perm>) for all permutations of 1..5 (6) levels x every reference - order, default reference, columns; every formula of a 17-formula pool x all 48 assignments of codings to its two factors - the column space of the common and group matrices must not change; one encoding object reused across factors and level orders.",
+   note="Rank decisions by SVD with gap check; the swap pool avoids the effect expressions recorded as C05 findings (their span is incomplete to begin with)."),
 }
 NOT_YET = {}
 props = [json.loads(l) for l in open(os.path.join(V, "properties.jsonl"))]
